@@ -51,8 +51,9 @@ type CallRec struct {
 	Results []Term
 	Args    []Term
 	PC      Term
-	Block   *ssa.BasicBlock
-	Index   int // instruction index in block
+	Block   *ssa.BasicBlock // position of the (outermost) call site in the top-level function
+	Index   int
+	Depth   int
 }
 
 type Closure struct {
